@@ -60,6 +60,7 @@ func loadGen(dir string) (*Gen, error) {
 		}
 	})
 	g.computeAliases()
+	g.loadSnapFuncs()
 	if os.Getenv("GOVC_TIMING") != "" {
 		defer func(t0 time.Time) { fmt.Fprintf(os.Stderr, "post-load phases: %v\n", time.Since(t0)) }(time.Now())
 	}
@@ -81,6 +82,8 @@ func (g *Gen) translate(fn *ssa.Function) (t *fnTrans, err error) {
 		closures: map[ssa.Value]*ssa.MakeClosure{}, sites: map[ssa.Instruction]string{}, siteState: map[string]*State{},
 		uncontracted: map[string]bool{}, rangeOf: map[ssa.Value]*ssa.Range{}, stable: map[ssa.Value]string{}, ghostVals: map[string]sval{}, usedContracts: map[string]bool{}, capturedBorrow: map[ssa.Value]bool{}, selIdx: map[string]string{}}
 	t.contract = g.contractOf(fn)
+	t.plan = g.inlinePlanFor(fn)
+	t.inlined = map[string]bool{}
 	defer func() {
 		if r := recover(); r != nil {
 			err = fmt.Errorf("translate %s: %v", t.key, r)
@@ -118,6 +121,7 @@ type runResult struct {
 	wall     time.Duration
 	solveMs  int64
 	ctxOf    map[*Obligation]*FnCtx
+	inContext []string // helpers verified only inside their callers
 }
 
 func (g *Gen) runAll(funcRe *regexp.Regexp, kinds map[string]bool, timeoutMs int, keep func(*Obligation) bool) *runResult {
@@ -134,6 +138,12 @@ func (g *Gen) runAll(funcRe *regexp.Regexp, kinds map[string]bool, timeoutMs int
 		}
 		key := g.fnKey(fn)
 		if funcRe != nil && !funcRe.MatchString(key) {
+			continue
+		}
+		if g.inlineOnly(fn) {
+			// a helper the contracts do not know, only ever called directly: verified inside
+			// each of its callers (inline.go), not on its own
+			res.inContext = append(res.inContext, key)
 			continue
 		}
 		t, err := g.translate(fn)
@@ -325,7 +335,8 @@ func cmdDump(args []string) {
 		}
 		if *obl == "" {
 			var ss []string
-			for in, s := range t.sites {
+			for _, se := range t.allSites {
+				in, s := se.in, se.label
 				pp := in.Pos()
 				if iff, ok := in.(*ssa.If); ok {
 					pp = condPos(iff.Cond)
@@ -371,14 +382,15 @@ func cmdSites(args []string) {
 			continue
 		}
 		var names []string
-		for _, s := range t.sites {
-			names = append(names, s)
+		for _, se := range t.allSites {
+			names = append(names, se.label)
 		}
 		sort.Strings(names)
 		if !*selOnly {
 			fmt.Printf("%s: %s\n", t.key, strings.Join(names, " "))
 		}
-		for in, s := range t.sites {
+		for _, se := range t.allSites {
+			in, s := se.in, se.label
 			sel, ok := in.(*ssa.Select)
 			if !ok {
 				continue
